@@ -461,3 +461,70 @@ def parse_name_list(text, header):
     if not m:
         return None
     return [ln[3:].rstrip('\n') for ln in m.group(1).splitlines()]
+
+
+def run_plain(argv, roots=(), want_state=False):
+    """Run the real Runner in-process with *real discovery* (no found_suites)
+    on directory trees.  Modules imported from ``roots`` and sys.path entries
+    added by the run are removed afterwards."""
+    R, F = _mods()
+    res = Result()
+    out, err = Capture(), Capture()
+    saved_streams = (sys.stdout, sys.stderr, sys.stdin)
+    saved_path = list(sys.path)
+    saved_mods = set(sys.modules)
+    import logging
+    root_logger = logging.getLogger()
+    saved_handlers = root_logger.handlers[:]
+    global CUR_OUT, CUR_ERR
+    saved_cur = (CUR_OUT, CUR_ERR)
+    CUR_OUT, CUR_ERR = out, err
+    saved_trace = (worldrt.TRACE, worldrt.VPID, worldrt.PROBE)
+    worldrt.TRACE = trace = []
+    worldrt.VPID = 0
+    worldrt.PROBE = None
+    sys.stdout, sys.stderr = out, err
+    runner = None
+    try:
+        try:
+            runner = R.Runner(None, ['vt-script'] + list(argv),
+                              script_parts=['vt-script'], cwd=None)
+            runner.run()
+        except BaseException as e:
+            res.escaped = type(e).__name__
+            res.escaped_tb = traceback.format_exc()[-3000:]
+    finally:
+        sys.stdout, sys.stderr, sys.stdin = saved_streams
+        sys.path[:] = saved_path
+        for m in list(sys.modules):
+            if m not in saved_mods:
+                mod = sys.modules.get(m)
+                f = getattr(mod, '__file__', None) or ''
+                p = getattr(mod, '__path__', None)
+                if (any(f.startswith(r) for r in roots) or
+                        (p and any(str(x).startswith(r) for x in list(p) for r in roots)) or
+                        not f):
+                    del sys.modules[m]
+        import importlib
+        importlib.invalidate_caches()
+        for r in roots:
+            for k in list(sys.path_importer_cache):
+                if k.startswith(r):
+                    del sys.path_importer_cache[k]
+        root_logger.handlers[:] = saved_handlers
+        worldrt.TRACE, worldrt.VPID, worldrt.PROBE = saved_trace
+        CUR_OUT, CUR_ERR = saved_cur
+    res.out = out.value()
+    res.err = err.value()
+    res.text = res.out.decode('utf-8', 'backslashreplace')
+    res.trace = trace
+    if runner is not None:
+        res.failed = runner.failed
+        res.ran = runner.ran
+        res.import_errors = len(runner.import_errors)
+        try:
+            res.failures = [_name(x) for x in runner.failures]
+            res.errors = [_name(x) for x in runner.errors]
+        except Exception:
+            pass
+    return res
